@@ -21,6 +21,7 @@ type fakeWriter struct {
 	status     []int
 	bodies     [][]byte
 	writeCalls int
+	onWrite    func()
 }
 
 func (w *fakeWriter) Header() http.Header {
@@ -31,6 +32,9 @@ func (w *fakeWriter) Header() http.Header {
 }
 func (w *fakeWriter) WriteHeader(code int) { w.status = append(w.status, code) }
 func (w *fakeWriter) Write(b []byte) (int, error) {
+	if w.onWrite != nil {
+		w.onWrite()
+	}
 	w.writeCalls++
 	w.bodies = append(w.bodies, append([]byte(nil), b...))
 	return len(b), nil
